@@ -112,6 +112,20 @@ def run_world_prop(prop, tier, seed, replay):
                                   "violated": r["violated"], "log": "-", "wall": r["wall"]})
                 cache_put("mcserde-" + tier, key, extra)
             mc = (mc or []) + extra
+        if prop == "C05":
+            key = content_key()
+            mc = cache_get("mcheap", key) or []
+            if not mc:
+                for cfg, desc in (("Heap.cfg", "life cycle of a type-erased column (raw parts written back after growth, shrink, batch adoption, free): the recorded parts always name the one live block"),
+                                  ("HeapBug.cfg", "SELF-TEST: adopting a caller's Vec while the column still owns a buffer must violate NoLeak")):
+                    r = tlc_mc("Heap.tla", cfg, os.path.join(WORK, "mc", cfg + ".meta"), workers=2, timeout=600)
+                    mc.append({"cfg": cfg, "desc": desc, "ok": r["ok"], "generated": r["generated"], "distinct": r["distinct"],
+                               "violated": r["violated"], "log": "-", "wall": r["wall"]})
+                cache_put("mcheap", key, mc)
+            bug = [m for m in mc if m["cfg"] == "HeapBug.cfg"][0]
+            if bug["ok"] or bug["violated"] != "NoLeak":
+                raise ToolError("self-test failed: the unguarded batch adoption does not violate NoLeak")
+            mc = [m for m in mc if m["cfg"] != "HeapBug.cfg"]
         if prop == "C09":
             key = content_key()
             mc = cache_get("mcpar", key) or []
@@ -147,7 +161,7 @@ def run_world_prop(prop, tier, seed, replay):
     violations = [{"what": "%s (line %d of %s, op %s)" % (f["name"], f["line"], f["trace"], f["op"]),
                    "replay": f["replay"]} for f in viol]
     for m in mc:
-        if not m["ok"] and (m["violated"] in (MC_INV.get(prop), None) or prop == "C09" or m["cfg"].startswith("MCSerde")):
+        if not m["ok"] and (m["violated"] in (MC_INV.get(prop), None) or prop in ("C09", "C05") or m["cfg"].startswith("MCSerde")):
             violations.append({"what": "model: %s violated in %s (%s)" % (m["violated"], m["cfg"], m["desc"]),
                                "replay": m["log"]})
     level, text = WORLD_NOTES[prop]
@@ -174,7 +188,7 @@ def run_world_prop(prop, tier, seed, replay):
         cov["transitions"] = sum(m["generated"] for m in mc)
         cov["model_instances"] = [{k: m[k] for k in ("cfg", "desc", "distinct", "generated", "ok")} for m in mc]
         cov["model_invariant"] = {"C09": "EveryRowOnce / NeverTwice / SlicesAgree", "C11": "Inv_C11 / Inv_C11_Pairs / Inv_RoundTrip (MCSerde)",
-                                  "C06": "Inv_C06 (MCWorld) + Inv_RoundTrip (MCSerde)"}.get(prop, MC_INV.get(prop))
+                                  "C06": "Inv_C06 (MCWorld) + Inv_RoundTrip (MCSerde)", "C05": "Recorded / NoLeak / LenFits (Heap.tla)"}.get(prop, MC_INV.get(prop))
     assumptions = [
         "the harness executes and logs faithfully (worlddrv); the brood_verif dump hook is read-only",
         "bounded: histories of the stated length, <=3 live worlds, <=~12 live entities per world",
